@@ -195,6 +195,113 @@ func c18FailedReload(c *vlib.Ctx) {
 	}
 }
 
+// c18ManagementAfterRefusedReload: the file on disk holds an edit that the
+// running process refused (restart required, or invalid); then the management
+// API rewrites the file (endpoint upsert / delete). The reload that follows the
+// rewrite needs a restart or fails too, so the mutation must fail, put back the
+// bytes it found, and leave the running behaviour exactly as before. With a
+// clean file the same mutation must succeed and behave like a fresh start.
+func c18ManagementAfterRefusedReload(c *vlib.Ctx) {
+	dir := c.Scratch()
+	type pend struct {
+		name    string
+		edit    func(next string) string
+		refused bool // the pending file cannot be applied without a restart / at all
+	}
+	pends := []pend{
+		{"pending_listener_change", func(n string) string { return strings.Replace(n, "listen 127.0.0.1:0", "listen 127.0.0.9:0", 1) }, true},
+		{"pending_backend_change", func(n string) string { return strings.ReplaceAll(n, "backend memory", "backend sqlite") }, true},
+		{"pending_admin_listener_change", func(n string) string { return strings.Replace(n, "listen 127.0.0.3:0", "listen 127.0.0.8:0", 1) }, true},
+		{"pending_compile_error", func(n string) string { return n + "\n/b { pull { path /dup } }\n" }, true},
+		{"pending_syntax_error", func(n string) string { return n + "\n/broken {" }, true},
+		{"clean_file", nil, false},
+	}
+	muts := []struct {
+		name, method, body string
+	}{{"upsert", "PUT", `{"route":"/b"}`}, {"delete_unknown", "DELETE", ""}}
+	for oi, old := range c18Configs {
+		for ni, next := range c18Configs {
+			if !c.Thorough() && (oi+2*ni)%3 != 0 {
+				continue
+			}
+			for _, pd := range pends {
+				for _, mu := range muts {
+					a, err := l2.Start(dir, old, nil, nil)
+					if err != nil {
+						c.Inconclusive("C18 config did not start: " + err.Error())
+						return
+					}
+					if pd.edit != nil {
+						_ = a.WriteConfig(pd.edit(next))
+						if a.Reload() {
+							c.Violation(vlib.Signature{"class": "invalid_reload_applied", "failure": pd.name}, "reload of a file that needs a restart or is invalid reported success", map[string]any{"old": old, "pending": pd.edit(next)})
+						}
+					}
+					fileBefore, _ := os.ReadFile(a.Path)
+					before := c18Fingerprint(a)
+					req := l2.JSONReq(mu.method, a.Compiled.AdminAPI.Prefix+"/applications/app1/endpoints/ep1", []byte(mu.body), "atok")
+					req.Header.Set("X-Hookaido-Audit-Reason", "verif")
+					resp := l2.Do(a.Admin, req)
+					fileAfter, _ := os.ReadFile(a.Path)
+					after := c18Fingerprint(a)
+					c.Count("evaluations", 1)
+					c.Count("management_mutation_trials", 1)
+					ok2xx := resp.Status >= 200 && resp.Status <= 299
+					if ok2xx {
+						c.Count("management_mutations_applied", 1)
+					} else {
+						c.Count("management_mutations_refused", 1)
+					}
+					c.Distinct("nontrivial", fmt.Sprintf("mgmt:%s:%s:%d->%d:2xx=%v", pd.name, mu.name, oi, ni, ok2xx))
+					wit := map[string]any{"old": old, "file_before_mutation": string(fileBefore), "file_after_mutation": string(fileAfter), "mutation": mu.name, "status": resp.Status, "body": string(resp.Body[:minInt(300, len(resp.Body))]), "fingerprint_before": before, "fingerprint_after": after}
+					if c.Counter("management_mutation_trials") <= 2 {
+						c.Sample(map[string]any{"part": "management_mutation", "pending": pd.name, "mutation": mu.name, "status": resp.Status, "file_changed": string(fileBefore) != string(fileAfter)})
+					}
+					changed := -1
+					for i := range before {
+						if before[i] != after[i] {
+							changed = i
+							break
+						}
+					}
+					switch {
+					case pd.refused || !ok2xx:
+						if pd.refused && ok2xx && string(fileBefore) != string(fileAfter) {
+							c.Violation(vlib.Signature{"class": "mutation_applied_over_refused_config", "pending": pd.name, "mutation": mu.name},
+								fmt.Sprintf("management %s answered %d and rewrote the file although the configuration on disk (%s) cannot be applied by a reload", mu.name, resp.Status, pd.name), wit)
+						}
+						if string(fileBefore) != string(fileAfter) && !ok2xx {
+							c.Violation(vlib.Signature{"class": "file_not_restored_after_failed_mutation", "pending": pd.name, "mutation": mu.name},
+								fmt.Sprintf("management %s failed (%d) but the config file differs from what it was before the call", mu.name, resp.Status), wit)
+						}
+						if changed >= 0 {
+							c.Violation(vlib.Signature{"class": "behaviour_changed_by_failed_mutation", "pending": pd.name, "mutation": mu.name, "probe": c18Probes()[changed].Name},
+								fmt.Sprintf("management %s over %s (status %d): probe changed %q -> %q although the reload could not be applied", mu.name, pd.name, resp.Status, before[changed], after[changed]), wit)
+						}
+					default:
+						// applied: the file must compile and the process behave like a fresh start of it
+						ref, err := l2.Start(dir, string(fileAfter), nil, nil)
+						if err != nil {
+							c.Violation(vlib.Signature{"class": "mutation_wrote_invalid_config", "mutation": mu.name}, "the file written by the management API does not start: "+err.Error(), wit)
+							break
+						}
+						want := c18Fingerprint(ref)
+						for i := range want {
+							if want[i] != after[i] {
+								c.Violation(vlib.Signature{"class": "mutation_differs_from_fresh_start", "probe": c18Probes()[i].Name},
+									fmt.Sprintf("after management %s the probe answers %q, a fresh start of the written file answers %q", mu.name, after[i], want[i]), wit)
+								break
+							}
+						}
+						ref.Close()
+					}
+					a.Close()
+				}
+			}
+		}
+	}
+}
+
 // c18Mixture: during a successful reload every request is served entirely under
 // the old or entirely under the new configuration.
 func c18Mixture(c *vlib.Ctx) {
@@ -362,6 +469,10 @@ func C18(c *vlib.Ctx) {
 	c.Assume("'cannot be read' is produced with a removed file, a directory and a dangling symlink (the harness runs as root, so permission bits are ignored)")
 	c.Assume("rate windows are not part of the fingerprint (a reload re-arms the buckets, as the statement of C12 notes)")
 	c18FailedReload(c)
+	c18ManagementAfterRefusedReload(c)
+	if c.Counter("management_mutations_applied") == 0 || c.Counter("management_mutations_refused") == 0 {
+		c.Inconclusive("C18 management part observed no applied or no refused mutation")
+	}
 	c18Mixture(c)
 	c18Files(c)
 	c.CollectRaces()
